@@ -221,6 +221,7 @@ namespace
     Counter cl_load("clause", "load(register_bytes==window,arena_unchanged,no_fault)"), cl_store("clause", "store(arena==shadow_with_window_overwritten,no_fault)"),
         cl_bool("clause", "bool(mask_and_get_agree_with_bytes|bytes_are_0_or_1)"), cl_cplx("clause", "complex(deinterleave/interleave)"),
         cl_gs("clause", "gather_scatter(exactly_indexed_elements)"), cl_pure("clause", "numbering(broadcast,ctor,get,insert)"),
+        cl_seq("clause", "sequence(library_access,caller's_typed_access,library_access)_in_one_scope"),
         cl_cvt("clause", "converting_load_store(footprint_is_lanes*sizeof(U),lane_i<->element_i)"), cl_cvtgs("clause", "converting_gather_scatter(exactly_indexed_elements)");
     Counter p_straddle_line("probe", "window_straddled_a_cache_line"), p_straddle_page("probe", "window_straddled_the_page_boundary"), p_touch_guard("probe", "window_touched_a_guard_edge"),
         p_neg_idx("probe", "gather_scatter_with_negative_index"), p_aligned_form("probe", "aligned_form_executed"), p_unplaceable("probe", "aligned_bool_window_not_flush(gap_to_guard)"),
@@ -365,7 +366,7 @@ namespace
             }
         }
         static bool is_split(const OpEntry& e) { return e.kind == K_CPLX2_LOAD || e.kind == K_CPLX2_STORE; }
-        static bool is_gs(const OpEntry& e) { return e.kind == K_GATHER || e.kind == K_SCATTER || e.kind == K_CVT_GATHER || e.kind == K_CVT_SCATTER; }
+        static bool is_gs(const OpEntry& e) { return e.kind == K_GATHER || e.kind == K_SCATTER || e.kind == K_CVT_GATHER || e.kind == K_CVT_SCATTER || e.kind == K_SEQ_GATHER || e.kind == K_SEQ_SCATTER; }
         static bool is_cvt(const OpEntry& e) { return e.kind >= K_CVT_LOAD && e.kind <= K_CVT_SCATTER; }
         // small integers that every element type represents exactly: the currency of the converting forms
         static void enc(const char* t, long v, unsigned char* dst)
@@ -527,7 +528,7 @@ namespace
             const int L = e.lanes;
             const size_t eb = elem_bytes(e);
             const int64_t imax = idx_max(e, eb);
-            const bool scatter = e.kind == K_SCATTER || e.kind == K_CVT_SCATTER;
+            const bool scatter = e.kind == K_SCATTER || e.kind == K_CVT_SCATTER || e.kind == K_SEQ_SCATTER || e.kind == K_SEQ_GATHER; // (the typed stores of seq: gather need distinct targets too)
             op.idx.resize((size_t)L);
             if (op.place == PL_HOLE && hole_possible(e, eb))
             {
@@ -978,6 +979,46 @@ namespace
                             break;
                         }
                     break;
+                case K_SEQ_LOAD:
+                case K_SEQ_GATHER:
+                    ++cl_seq;
+                    for (int i = 0; i < e.lanes; ++i)
+                    {
+                        size_t k = e.kind == K_SEQ_LOAD ? (size_t)i : (size_t)(op.idx[(size_t)i] - lo);
+                        if (memcmp(aux + (size_t)i * e.elem, g_mem.shadow + woff + k * eb, (size_t)e.elem))
+                        {
+                            out.violate(sim::fmt("C04/lane-mismatch(%s)", e.form), sim::fmt("%s: first access: lane %d is not the element", where.c_str(), i));
+                            break;
+                        }
+                    }
+                    for (int i = 0; i < e.lanes; ++i)
+                    {
+                        size_t k = e.kind == K_SEQ_LOAD ? (size_t)i : (size_t)(op.idx[(size_t)i] - lo);
+                        memcpy(g_mem.shadow + woff + k * eb, reg_in + (size_t)i * e.elem, (size_t)e.elem); // the caller's typed stores
+                    }
+                    if (memcmp(reg_out, reg_in, rb))
+                        out.violate(sim::fmt("C04/stale-lane(%s)", e.form), sim::fmt("%s: the second access does not see what the caller stored into the array through T lvalues in between", where.c_str()));
+                    break;
+                case K_SEQ_STORE:
+                case K_SEQ_SCATTER:
+                    ++cl_seq;
+                    for (int i = 0; i < e.lanes; ++i)
+                    {
+                        size_t k = e.kind == K_SEQ_STORE ? (size_t)i : (size_t)(op.idx[(size_t)i] - lo);
+                        if (memcmp(aux + rb + (size_t)i * e.elem, g_mem.shadow + woff + k * eb, (size_t)e.elem))
+                        {
+                            out.violate(sim::fmt("C04/stale-lane(%s)", e.form), sim::fmt("%s: the caller's typed read BEFORE the store did not see the old element %d", where.c_str(), i));
+                            break;
+                        }
+                    }
+                    for (int i = 0; i < e.lanes; ++i)
+                    {
+                        size_t k = e.kind == K_SEQ_STORE ? (size_t)i : (size_t)(op.idx[(size_t)i] - lo);
+                        memcpy(g_mem.shadow + woff + k * eb, reg_in + (size_t)i * e.elem, (size_t)e.elem);
+                    }
+                    if (memcmp(aux, reg_in, rb))
+                        out.violate(sim::fmt("C04/stale-lane(%s)", e.form), sim::fmt("%s: the caller's typed reads after the store do not see the stored lanes", where.c_str()));
+                    break;
                 case K_CPLX2_LOAD:
                     ++cl_cplx;
                     if (memcmp(reg_out, g_mem.shadow + woff, rb))
@@ -1117,7 +1158,7 @@ namespace
                     while (g_mem.data[i] == g_mem.shadow[i])
                         ++i;
                     bool inside = (i >= woff && i < woff + wbytes) || (second && i >= woff2 && i < woff2 + wbytes);
-                    bool is_store = e.kind == K_CCVT_STORE || e.kind == K_CPLX2_STORE || e.kind == K_STORE || e.kind == K_BOOL_STORE || e.kind == K_CPLX_STORE || e.kind == K_SCATTER || e.kind == K_CVT_STORE || e.kind == K_CVT_SCATTER;
+                    bool is_store = e.kind == K_SEQ_STORE || e.kind == K_SEQ_SCATTER || e.kind == K_SEQ_LOAD || e.kind == K_SEQ_GATHER || e.kind == K_CCVT_STORE || e.kind == K_CPLX2_STORE || e.kind == K_STORE || e.kind == K_BOOL_STORE || e.kind == K_CPLX_STORE || e.kind == K_SCATTER || e.kind == K_CVT_STORE || e.kind == K_CVT_SCATTER;
                     std::string cls;
                     if (inside && is_store)
                         cls = e.kind == K_BOOL_STORE && g_mem.data[i] > 1 ? sim::fmt("C04/bool-encoding(%s)", e.form) : sim::fmt("C04/missing-write(%s)", e.form);
